@@ -130,6 +130,11 @@ def generate(con, index=None, live=None, canary=False):
     if unsupported and rep.status == "ok":
         rep.status = "undecided"
         rep.reason = f"Unsupported on {len(unsupported)} of {rep.paths} paths: {unsupported[0]}"
+    if rep.status == "ok" and rep.paths > 0 and not any(k == "return" or str(k).startswith("raise:") for k in rep.cover):
+        # every explored path ended in a contradiction of the ASSUMPTIONS (a requires / callee contract that excludes everything):
+        # nothing was proved about any execution - vacuous, not "ok"
+        rep.status = "undecided"
+        rep.reason = f"vacuous: none of the {rep.paths} paths reaches a return or a raise (contradictory assumptions)"
     rep.gen_time = time.time() - t0
     return rep
 
